@@ -501,6 +501,10 @@ def do_op(ctx, aid, oi, table, op):
         while l is None or not l.flag:
             s.sleep(0.05)  # 50 ms of computation, then an interruptible point
         return ("ok",)
+    if k == "linger":
+        # the process outlives its connection by op[1] seconds (non-daemon thread / blocking atexit handler)
+        s.current.proc.linger = op[1]
+        return ("ok",)
     if k == "sig_ignore_term":
         # signal.signal(SIGTERM, SIG_IGN) of the simulated process
         s.current.proc.ignore_term = True
